@@ -153,6 +153,38 @@ def _r1(ctx):
             "M_d = %s.get_loopcarried_dependencies()" % fd.params()[2], fd.node) else "?"
         tsel_n = tsel.replace(cv.params()[3], "D")
         dsel_n = dsel.replace(ddict, "D")
+
+        def sel_class(txt):
+            """which of several equally long cycles the expression picks: max()/min() return the FIRST extreme element, a
+            stable sort keeps equal elements in their order (also with reverse=True), so sorted(..)[-1] is the LAST maximal
+            and sorted(.., reverse=True)[0] the FIRST maximal one"""
+            try:
+                e = ast.parse(txt, mode="eval").body
+            except SyntaxError:
+                return None
+            idx = None
+            if isinstance(e, ast.Subscript) and C.const_num(e.slice) in (0, -1):
+                idx, e = C.const_num(e.slice), e.value
+            if not (isinstance(e, ast.Call) and isinstance(e.func, ast.Name) and len(e.args) == 1):
+                return None
+            kw = {k.arg: k.value for k in e.keywords}
+            if set(kw) - {"key", "reverse"} or "key" not in kw:
+                return None
+            base = (U(e.args[0]), U(kw["key"]))
+            if e.func.id in ("max", "min") and idx is None and "reverse" not in kw:
+                return ("first", e.func.id) + base
+            if e.func.id == "sorted" and idx is not None:
+                rev = kw.get("reverse")
+                if rev is not None and not (isinstance(rev, ast.Constant) and isinstance(rev.value, bool)):
+                    return None
+                rev = bool(rev.value) if rev is not None else False
+                extreme = "max" if (idx == -1) != rev else "min"
+                # ascending: [0] first minimal, [-1] last maximal; descending: [0] first maximal, [-1] last minimal
+                return ("first" if idx == 0 else "last", extreme) + base
+            return None
+        tc, dc = sel_class(tsel_n), sel_class(dsel_n)
+        if tc is not None and dc is not None:
+            tsel_n, dsel_n = repr(tc), repr(dc)
         pair("LCD cell / LatencyLCD: the same cycle is selected", tsel_n == dsel_n, cv.where(tn),
              "text selects with `%s`, dict with `%s`: among several cycles of equal maximal latency the two expressions pick "
              "different ones, so the LCD column marks other lines than LatencyLCD" % (tsel, dsel))
@@ -177,6 +209,26 @@ def _r1(ctx):
             elif isinstance(a, (ast.ListComp, ast.GeneratorExp)) and len(a.generators) == 1 and U(a.generators[0].iter) == kern:
                 g = a.generators[0]
                 v = (not g.ifs and U(a.elt) == U(g.target))
+                if g.ifs and U(a.elt) == U(g.target) and isinstance(g.target, ast.Name):
+                    # a pre-filter that get_throughput_sum applies itself (its own comprehension over its parameter has
+                    # the same condition) leaves nothing out that would have been summed
+                    def _flt(gen):
+                        out_ = set()
+                        for c_ in gen.ifs:
+                            r_ = ast.parse(U(c_), mode="eval").body
+                            for x_ in ast.walk(r_):
+                                if isinstance(x_, ast.Name) and x_.id == gen.target.id:
+                                    x_.id = "ITEM_"
+                            out_ |= C.norm_facts_of_test(r_)
+                        return out_
+                    callee = ctx.func("ArchSemantics.get_throughput_sum")
+                    own = set()
+                    for cc in ast.walk(callee.node):
+                        if isinstance(cc, (ast.ListComp, ast.GeneratorExp)) and len(cc.generators) == 1 and isinstance(cc.generators[0].target, ast.Name) \
+                                and U(cc.generators[0].iter) == callee.params()[0] and cc.generators[0].ifs:
+                            own = _flt(cc.generators[0])
+                    mine = _flt(g)
+                    v = True if (mine and mine <= own) else False
             elif isinstance(a, ast.Subscript) and U(a.value) == kern and isinstance(a.slice, ast.Slice):
                 v = U(a.slice) == ":"
             elif isinstance(a, ast.Call) and isinstance(a.func, ast.Name) and a.func.id == "filter":
